@@ -26,7 +26,7 @@ func c09Profile() *sm.Profile {
 		IndexFields: []string{"x", "y", "u", "_id", "n.a"},
 		Doc:         gen.DocCfg{Val: gen.ValCfg{MaxDepth: 1}, PAbsent: 4},
 		IdPool:      24,
-		MaxDocs:     12,
+		MaxDocs:     20, // above 12: sort.Slice is an insertion sort (stable) up to 12 elements only
 		BadIds:      true,
 		BadDocs:     true,
 		Crit:        gen.CritEnv{Val: gen.ValCfg{MaxDepth: 1}, GoKinds: true, MaxDepth: 3},
@@ -244,6 +244,34 @@ func testC09Histories(t *testing.T) {
 		backends: []string{run.Bbolt, run.Bbolt, run.BadgerMem},
 		profile:  func(rt *rapid.T) *sm.Profile { return c09Profile() },
 		session:  c09Session,
+		before: func(rt *rapid.T, s *sm.Session, p *sm.Profile) {
+			// a third of the histories start with 13-40 documents over a tiny value domain in a second
+			// collection: many ties on every combination of sort fields (FindFirst must still be the first
+			// element of FindAll, ForEach the same sequence), and more than a dozen results
+			if rapid.IntRange(0, 2).Draw(rt, "many-ties") != 0 {
+				return
+			}
+			n := rapid.IntRange(13, 40).Draw(rt, "nties")
+			docs := make([]cs.Doc, n)
+			for i := range docs {
+				d := cs.Doc{"_id": gen.Id(100 + i), "u": int64(5000 + i)}
+				if v := rapid.IntRange(0, 2).Draw(rt, "tx"); v < 2 {
+					d["x"] = int64(v)
+				}
+				if v := rapid.IntRange(0, 2).Draw(rt, "ty"); v < 2 {
+					d["y"] = []interface{}{"a", int64(1)}[v]
+				}
+				docs[i] = d
+			}
+			for _, op := range []cs.Op{{Kind: "createcoll", Coll: "B"}, {Kind: "insert", Coll: "B", Docs: docs}} {
+				if f := s.Do(op); f != nil {
+					violate(rt, "C09", "c09", s.Program(f), f)
+				}
+			}
+			if rapid.Bool().Draw(rt, "ties-index") {
+				s.Do(cs.Op{Kind: "createindex", Coll: "B", Field: rapid.SampledFrom([]string{"x", "y"}).Draw(rt, "ties-ix")})
+			}
+		},
 		classify: func(s *sm.Session, p *sm.Profile, op cs.Op) (bool, []string) {
 			if op.Kind != "find" {
 				return false, []string{"write-or-point-read"}
